@@ -325,6 +325,26 @@ fn check_tape(tape: &[u8], gates: &Gates, stats: &mut Stats, counting: bool, cli
                     return Err(fail("cli", "verdict-differs", format!("`ironplcc check` (run {}) exit {:?}, canonical ok={}", rep, out.status, base.ok), arr));
                 }
             }
+            // the same files, the first one named directly and the others lying in a directory that
+            // is named before / after it: "file order and discovery" includes this mixture
+            let sub = dir.path.join("rest");
+            let _ = std::fs::create_dir_all(&sub);
+            for (i, tx) in texts.iter().enumerate().skip(1) {
+                let _ = std::fs::write(sub.join(crate::drive::set_file_name(i)), tx.as_bytes());
+            }
+            let first = paths[0].clone();
+            let subs = sub.to_string_lossy().to_string();
+            for args in [vec!["check".to_string(), first.clone(), subs.clone()], vec!["check".to_string(), subs.clone(), first.clone()]] {
+                let out = run_cli(&args, None);
+                stats.class("cli.check-run.file-and-directory");
+                if out.timed_out {
+                    stats.inconclusive += 1;
+                    continue;
+                }
+                if (out.status == Some(0)) != base.ok {
+                    return Err(fail("cli", "verdict-differs", format!("`ironplcc check {}` exit {:?}, canonical ok={}", if args[1] == first { "<file> <dir>" } else { "<dir> <file>" }, out.status, base.ok), arr));
+                }
+            }
         }
     }
     if counting {
